@@ -181,7 +181,7 @@ class TempSeam:
 
     def __call__(self, *a, **kw):
         if self.mode == 'real':
-            f = tempfile.TemporaryFile(*a, **kw)
+            f = _REAL_TEMPFILE(*a, **kw)
         else:
             f = MemTemp()
         self.files.append(f)
@@ -192,7 +192,12 @@ class TempSeam:
         return len(self.files)
 
     def owns(self, obj):
-        return any(obj is f for f in self.files)
+        """Is obj a spill file?  One handed out by this seam - or, when the code under test reaches the
+        operating system's temporary files by another route than the names the seam replaces, any object
+        backed by a file descriptor (what 'kept on disk rather than in memory' means)."""
+        if any(obj is f or getattr(obj, 'raw', None) is f or getattr(obj, 'file', None) is f for f in self.files):
+            return True
+        return is_os_file(obj)
 
     def close_all(self):
         for f in self.files:
@@ -203,7 +208,20 @@ class TempSeam:
         self.files = []
 
 
+def is_os_file(obj):
+    """True for an object that keeps its content in a file of the operating system (never for BytesIO)."""
+    if obj is None or isinstance(obj, io.BytesIO):
+        return False
+    if isinstance(obj, tempfile.SpooledTemporaryFile):
+        return bool(getattr(obj, '_rolled', False))        # fileno() would itself force the roll-over
+    try:
+        return isinstance(obj.fileno(), int)
+    except Exception:
+        return False
+
+
 _SEAM_TL = threading.local()
+_REAL_TEMPFILE = tempfile.TemporaryFile
 
 
 def _seam_dispatch(*a, **kw):
@@ -212,7 +230,7 @@ def _seam_dispatch(*a, **kw):
     stack = getattr(_SEAM_TL, 'stack', None)
     if stack:
         return stack[-1](*a, **kw)
-    return tempfile.TemporaryFile(*a, **kw)
+    return _REAL_TEMPFILE(*a, **kw)
 
 
 class temp_seam:
@@ -222,9 +240,13 @@ class temp_seam:
         self.seam = TempSeam(mode)
 
     def __enter__(self):
+        # the seam is the name the reader calls: the module attribute body_mixin.TemporaryFile as the code stands,
+        # tempfile.TemporaryFile for a reader that goes through the module
         from ombott.request_pkg import body_mixin
-        if body_mixin.TemporaryFile is not _seam_dispatch:
+        if getattr(body_mixin, 'TemporaryFile', None) not in (None, _seam_dispatch):
             body_mixin.TemporaryFile = _seam_dispatch
+        if tempfile.TemporaryFile is not _seam_dispatch:
+            tempfile.TemporaryFile = _seam_dispatch
         stack = getattr(_SEAM_TL, 'stack', None)
         if stack is None:
             stack = _SEAM_TL.stack = []
